@@ -11,6 +11,7 @@ mod srcmap;
 mod suts;
 mod freerun;
 mod exec_suts;
+mod exec_multi;
 mod chan_suts;
 mod cont_suts;
 mod handle_suts;
